@@ -115,7 +115,7 @@ CHECKS.update({
     "C20": ("model_checking",
             "explicit-state level-synchronous BFS over budget directory trees with the real CLI commands as transitions (forked processes), tree-hash visited set, frame-condition invariant on every transition",
             "From 16 initial budget trees (zero-length configuration files, a user's own .gitignore and .skipped.csv, a settings file naming a custom rules file, new/old layout, missing views/rules, a views_file setting naming an absent file, legacy CSV with rules / header only / with existing backups incl. gaps in their numbering and unreferenced merchants.rules, CRLF and "
-            "trailing-blank settings) all 13 commands (up in 4 output modes, explain x2, discover x2, diag, inspect, init, init <dir>, up --migrate) are applied to every reachable tree "
+            "trailing-blank settings) all 14 commands (up in 4 output modes and once started inside the config directory, explain x2, discover x2, diag, inspect, init, init <dir>, up --migrate) are applied to every reachable tree "
             "up to depth 3 (quick) / 6 or fixpoint (thorough); read-only commands must leave every file outside the output location byte-identical and create nothing outside it; init / "
             "--migrate must keep every user file (settings may only grow, the legacy CSV may only move to a fresh .bak* with identical bytes).",
             "non-interactive runs; bytes of tally-created files and the output location are not judged",
